@@ -35,9 +35,12 @@ MARK = 'Row_'
 ROUTES = ('input', 'file_input', 'filename_input', 'dir', 'zip')
 
 
-def add_marker(schema_doc):
+def add_marker(schema_doc, rng=None):
     for c in schema_doc['classes']:
-        c['attrs'].append([MARK, 'INTEGER'])
+        if rng is not None and rng.random() < 0.3:
+            c['attrs'].insert(0, [MARK, 'INTEGER'])     # first column: rows of this class may stop early
+        else:
+            c['attrs'].append([MARK, 'INTEGER'])
     return schema_doc
 
 
@@ -216,7 +219,7 @@ class DeliveryEngine(Engine):
         schema = refstore.gen_schema(st['schema'], want=sw.choice([[], [], ['multi_key'], ['shared_ref'], ['reflexive'],
                                                                    ['subsuper'], ['assoc_class'], ['chain_key']]),
                                      profile=profile)
-        add_marker(schema)
+        add_marker(schema, st['marker'])
         clean = sw.random() < 0.35
         rows = sqlgen.gen_population(st['population'], schema, max_rows=sw.choice([6, 12, 30]),
                                      p_null=0.0 if clean else sw.choice([0.0, 0.15, 0.3]),
@@ -267,6 +270,15 @@ class DeliveryEngine(Engine):
                         style['omit'] = rng.sample(names, rng.randint(1, max(1, len(names) // 2))) if names else []
                 elif m < 0.5:
                     style['multiline'] = True
+                elif m < 0.62 and sch.attrs(r['kind'])[0][0] == MARK:
+                    # a positional row that stops early ("schema mismatch", accepted): the missing columns hold the
+                    # default of their type, missing referential ones are unset.  Ids are not left to the generator.
+                    attrs = sch.attrs(r['kind'])
+                    k = 0
+                    while k < len(attrs) - 1 and (attrs[-1 - k][0] in refs or attrs[-1 - k][1].upper() != 'UNIQUE_ID'):
+                        k += 1
+                    if k:
+                        style['short'] = rng.randint(1, k)
             ops.append({'t': 'row', 'i': r['row'], 'style': style})
         cfg = {'schema': schema, 'rows': rows, 'inferred': inferred,
                'plans': [st['sched'].getrandbits(48) for _ in range(sw.choice([3, 3, 4]))],
@@ -322,6 +334,13 @@ class DeliveryEngine(Engine):
                     texts.append(sqlgen.render_row(cc, vals, st2))
                     for n in style['omit']:
                         vals[n] = None
+                elif style.get('short'):
+                    keep = c['attrs'][:len(c['attrs']) - style['short']]
+                    cc = {'kind': c['kind'], 'attrs': keep}
+                    texts.append(sqlgen.render_row(cc, vals, style))
+                    refs = sch.referential(c['kind'])
+                    for n, ty in c['attrs'][len(keep):]:
+                        vals[n] = None if n in refs else refstore.type_default(ty)
                 else:
                     texts.append(sqlgen.render_row(c, vals, style))
                 rows.append({'kind': r['kind'], 'row': r['row'], 'values': vals})
